@@ -53,6 +53,8 @@ def install(E):
 
     def days_facts(P, y, m, d):
         """instances of the calendar axioms around the civil date (y, m, d)"""
+        if getattr(E, "quant_depth", 0):
+            return
         E.assume_used("A-DT")
         P.assume(DAYS(z3.IntVal(1970), z3.IntVal(1), z3.IntVal(1)) == 0)
         P.assume(DAYS(y, m, d) == DAYS(y, m, z3.IntVal(1)) + d - 1)
@@ -75,6 +77,8 @@ def install(E):
     def civil_facts(P, n):
         """the civil date of day number n is valid and maps back to n"""
         E.assume_used("A-DT")
+        if getattr(E, "quant_depth", 0):
+            return
         y, m, d = CY(n), CM(n), CD(n)
         key = ("civil", str(n))
         if key in P.ghost:
